@@ -16,9 +16,13 @@ namespace gs
         V1 = 0,     // configurable codec, gstuff_context() alphabet (START != STOP)
         V0 = 1,     // configurable codec, gstuff_context_v0() alphabet (START == STOP)
         LEGACY = 2, // gstuffing_v1 + gstuff_autorecv_v1
-        NCODEC = 3
+        NCODEC = 3, // the shipped codecs the statements quantify over
+        CUSTOM = 3, // EXTRA dimension beyond the statements: configurable codec with a caller-defined gstuff_context
+        NCODEC_ALL = 4
     };
-    static const char *const CODEC_NAME[3] = {"v1", "v0", "legacy"};
+    static const char *const CODEC_NAME[4] = {"v1", "v0", "legacy", "custom"};
+    // keys of the extra dimension are prefixed so that they can never be mistaken for a statement clause
+    static inline const char *key_prefix(int k) { return k == CUSTOM ? "custom-alphabet:" : ""; }
 
     struct Alpha
     {
@@ -27,9 +31,53 @@ namespace gs
         bool is_marker(uint8_t c) const { return c == START || c == STOP || c == STUB; }
     };
     // the two shipped alphabets (calibrated against the library's gstuff_context values in vf_setup-time clauses)
-    static const Alpha ALPHA[3] = {{0xA8, 0xB2, 0xC5, 0x8A, 0x2B, 0x5C},
-                                   {0xAC, 0xAC, 0xAD, 0xAE, 0xAE, 0xAF},
-                                   {0xAC, 0xAC, 0xAD, 0xAE, 0xAE, 0xAF}};
+    // slot CUSTOM is set per case by set_custom()
+    static Alpha ALPHA[4] = {{0xA8, 0xB2, 0xC5, 0x8A, 0x2B, 0x5C},
+                             {0xAC, 0xAC, 0xAD, 0xAE, 0xAE, 0xAF},
+                             {0xAC, 0xAC, 0xAD, 0xAE, 0xAE, 0xAF},
+                             {0xA8, 0xB2, 0xC5, 0x8A, 0x2B, 0x5C}};
+    // Custom alphabets: six pairwise distinct bytes from this pool (START != STOP), or four with STOP == START and
+    // C_STOP == C_START (the shape of the shipped v0 alphabet).  For idx < 3*POOL every pool value is placed in
+    // every marker role once; the remaining choices are a pure function of (seed, idx).
+    static const uint8_t CUSTOM_POOL[17] = {0x00, 0x01, 0x7F, 0x80, 0xFE, 0xFF, 'a', 0xA8, 0xB2, 0xC5, 0x8A, 0x2B, 0x5C, 0xAC, 0xAD, 0xAE, 0xAF};
+    static inline Alpha custom_alpha(uint64_t seed, uint64_t idx, bool shared)
+    {
+        uint64_t x = seed * 0x9e3779b97f4a7c15ULL + idx * 0xbf58476d1ce4e5b9ULL + 12345;
+        auto next = [&x]() {
+            x ^= x << 13;
+            x ^= x >> 7;
+            x ^= x << 17;
+            return x;
+        };
+        uint8_t v[6];
+        bool used[17] = {false};
+        int forced_role = idx < 3 * 17 ? (int)(idx % 3) : -1;
+        if (forced_role >= 0)
+        {
+            v[forced_role] = CUSTOM_POOL[idx / 3];
+            used[idx / 3] = true;
+        }
+        for (int i = 0; i < 6; i++)
+        {
+            if (i == forced_role)
+                continue;
+            int j;
+            do
+                j = (int)(next() % 17);
+            while (used[j]);
+            used[j] = true;
+            v[i] = CUSTOM_POOL[j];
+        }
+        // roles: v[0] START, v[1] STUB, v[2] STOP, v[3] C_START, v[4] C_STOP, v[5] C_STUB
+        Alpha a{v[0], v[2], v[1], v[3], v[4], v[5]};
+        if (shared)
+        {
+            a.STOP = a.START;
+            a.C_STOP = a.C_START;
+        }
+        return a;
+    }
+    static inline void set_custom(const Alpha &a) { ALPHA[CUSTOM] = a; }
 
     // normalised receiver status (the numeric values of the C++ receiver)
     enum St
